@@ -61,6 +61,10 @@ type Prefix struct {
 	Guard  string `json:"guard"`
 	Callee string `json:"callee"`
 	Kind   string `json:"kind"` // prefix | unknown
+	// the callee is <h.M(inner)>.ServeHTTP where M returns authenticate(<literal>, h, h.Config.AuthEnabled): the prefix is
+	// behind authentication; Guards = the decisions the literal's user argument reaches
+	Auth   bool     `json:"auth"`
+	Guards []string `json:"guards"`
 }
 
 type Out struct {
@@ -1206,6 +1210,13 @@ func scanServeHTTP(repo string, p *packages.Package) {
 				for _, e := range cc.List {
 					pf := parsePrefixCond(p.TypesInfo, e)
 					pf.Callee = callee
+					if len(cc.Body) == 1 {
+						if es, ok := cc.Body[0].(*ast.ExprStmt); ok {
+							if call, ok := es.X.(*ast.CallExpr); ok {
+								pf.Auth, pf.Guards = prefixAuth(p, call)
+							}
+						}
+					}
 					if callee == "" {
 						pf.Kind = "unknown"
 						pf.Callee = render(cc)
@@ -1255,6 +1266,7 @@ func scanServeHTTP(repo string, p *packages.Package) {
 				if es, ok := cur.Body.List[0].(*ast.ExprStmt); ok {
 					if call, ok := es.X.(*ast.CallExpr); ok {
 						pf.Callee = render(call.Fun)
+						pf.Auth, pf.Guards = prefixAuth(p, call)
 					}
 				}
 			}
@@ -1285,6 +1297,58 @@ func scanServeHTTP(repo string, p *packages.Package) {
 			}
 		}
 	}
+}
+
+// prefixAuth: is the dispatched call `h.M(..).ServeHTTP(w, r)` with M a method whose whole body is
+// `return authenticate(func(w, r, user) {..}, h, h.Config.AuthEnabled)` ?  Then the decisions of the literal.
+func prefixAuth(p *packages.Package, call *ast.CallExpr) (bool, []string) {
+	sel, ok := call.Fun.(*ast.SelectorExpr)
+	if !ok || sel.Sel.Name != "ServeHTTP" {
+		return false, nil
+	}
+	inner, ok := sel.X.(*ast.CallExpr)
+	if !ok {
+		return false, nil
+	}
+	var fid *ast.Ident
+	switch f := inner.Fun.(type) {
+	case *ast.Ident:
+		fid = f
+	case *ast.SelectorExpr:
+		fid = f.Sel
+	}
+	if fid == nil {
+		return false, nil
+	}
+	fn, ok := p.TypesInfo.Uses[fid].(*types.Func)
+	if !ok {
+		return false, nil
+	}
+	q, fd := declOf(fn)
+	if fd == nil || len(fd.Body.List) != 1 {
+		return false, nil
+	}
+	rs, ok := fd.Body.List[0].(*ast.ReturnStmt)
+	if !ok || len(rs.Results) != 1 {
+		return false, nil
+	}
+	ac, ok := rs.Results[0].(*ast.CallExpr)
+	if !ok || render(ac.Fun) != "authenticate" || len(ac.Args) != 3 || render(ac.Args[2]) != "h.Config.AuthEnabled" {
+		return false, nil
+	}
+	fl, ok := ac.Args[0].(*ast.FuncLit)
+	if !ok {
+		return false, nil
+	}
+	ps := paramObjs(q.TypesInfo, fl.Type)
+	res := []string{}
+	if len(ps) == 3 && ps[2] != nil {
+		for g := range guardsIn(q, fl.Body, ps[2]) {
+			res = append(res, g)
+		}
+	}
+	sort.Strings(res)
+	return true, res
 }
 
 func parsePrefixCond(info *types.Info, c ast.Expr) Prefix {
